@@ -312,6 +312,22 @@ pub fn run_fwd(args: &[&str]) -> String {
     })
 }
 
+/// Start line of a race: the OS barrier (wake-ups are staggered by microseconds) followed by a spin rendezvous, so that
+/// the racing calls begin within nanoseconds of each other (windows of a few instructions — two consecutive loads, a
+/// load and its CAS — are hit by real parallelism).
+fn start_line(barrier: &Barrier, go: &std::sync::atomic::AtomicUsize, total: usize) {
+    barrier.wait();
+    go.fetch_add(1, Ordering::SeqCst);
+    let mut spins = 0u64;
+    while go.load(Ordering::SeqCst) < total {
+        std::hint::spin_loop();
+        spins += 1;
+        if spins % 4096 == 0 {
+            std::thread::yield_now();
+        }
+    }
+}
+
 fn race_fwd<VM: VMBinding>(st: St, args: &[&str]) -> String {
     let immix = match args[1] {
         "copy" => false,
@@ -329,17 +345,19 @@ fn race_fwd<VM: VMBinding>(st: St, args: &[&str]) -> String {
     COPIES.store(0, Ordering::SeqCst);
     let queue = Arc::new(Mutex::new(Vec::<usize>::new()));
     let barrier = Arc::new(Barrier::new(n));
+    let go = Arc::new(std::sync::atomic::AtomicUsize::new(0));
     mmtk::verif::gc::arm_yield(seed | 1);
     let handles: Vec<_> = (0..n)
         .map(|t| {
             let queue = queue.clone();
             let barrier = barrier.clone();
+            let go = go.clone();
             std::thread::spawn(move || {
                 mmtk::verif::gc::set_tid(200 + t + (seed as usize % 977) * 64);
                 NEXT_COPY.with(|c| c.set(new_addr(t + 1)));
                 let o = oref(o_addr);
                 let mut q = vec![];
-                barrier.wait();
+                start_line(&barrier, &go, n);
                 let r = if immix { trace_immix::<VM>(o, (mask >> t) & 1 != 0, &mut q) } else { trace_copy::<VM>(o, &mut q) };
                 queue.lock().unwrap().extend(q.iter().map(|x| x.to_raw_address().as_usize()));
                 r.to_raw_address().as_usize()
@@ -436,24 +454,28 @@ fn race_cas<VM: VMBinding>(st: St, args: &[&str]) -> String {
     // marked / logged / pinned … and reset concurrently
     // (the LOS mark/nursery spec has one 2-bit field per PAGE: its neighbour is the next page's object)
     let nb_addr = if kind == "los" { o_addr + 4096 } else { obj_addr(slot ^ 1) };
-    let barrier = Arc::new(Barrier::new(n + usize::from(env)));
+    let total = n + usize::from(env);
+    let barrier = Arc::new(Barrier::new(total));
+    let go = Arc::new(std::sync::atomic::AtomicUsize::new(0));
     mmtk::verif::gc::arm_yield(seed | 1);
     let mut handles = vec![];
     for t in 0..n {
         let barrier = barrier.clone();
+        let go = go.clone();
         let kind = kind.clone();
         handles.push(std::thread::spawn(move || {
             mmtk::verif::gc::set_tid(300 + t + (seed as usize % 977) * 64);
-            barrier.wait();
+            start_line(&barrier, &go, total);
             cas_call::<VM>(l, &kind, oref(o_addr), arg).unwrap()
         }));
     }
     let envh = if env {
         let barrier = barrier.clone();
+        let go = go.clone();
         let kind = kind.clone();
         Some(std::thread::spawn(move || {
             mmtk::verif::gc::set_tid(399 + (seed as usize % 977) * 64);
-            barrier.wait();
+            start_line(&barrier, &go, total);
             // side layout: the neighbouring object's field of the same spec (same byte);
             // header layouts: another field of the SAME object (same byte in layouts 1 and 2)
             let nb = oref(if l == 0 { nb_addr } else { o_addr });
